@@ -380,13 +380,16 @@ def run(ctx):
                 shutil.copytree(cs['dst0'], dst)
                 as_dirs = (pi % 2 == 1)
                 srcargs = [os.path.dirname(cs['srcs'][k][0]) if as_dirs else cs['srcs'][k][0] for k in perm]
-                jobs.append((cs, perm, dst, [MIBCOPY, '--mib-source=file://' + cs['repo']] + srcargs + [dst]))
+                # the reporting switches change what is printed, never what is copied
+                flags = [[], ['--quiet'], ['--verbose'], ['--quiet', '--verbose'], ['--ignore-errors']][(i + pi) % 5]
+                jobs.append((cs, perm, dst, [MIBCOPY] + flags + ['--mib-source=file://' + cs['repo']] + srcargs + [dst]))
         with ThreadPoolExecutor(max_workers=12) as ex:
             couts = list(ex.map(lambda j: run_cmd(j[3]), jobs))
         for (cs, perm, dst, args), (rc, err) in zip(jobs, couts):
             res.case(('mibcopy', tuple(args[2:])), len(cs['srcs']) > 1)
             res.count('mibcopy-runs')
-            inp = {'sources': [(os.path.basename(p), n, r, t) for p, n, r, t in cs['srcs']], 'order': list(perm), 'pre': cs['pre']}
+            inp = {'sources': [(os.path.basename(p), n, r, t) for p, n, r, t in cs['srcs']], 'order': list(perm), 'pre': cs['pre'],
+                   'flags': [a for a in args[1:] if a.startswith('--') and not a.startswith('--mib-source')]}
             if rc != 0:
                 res.oracle_failures.append({'key': 'mibcopy-exit', 'what': 'mibcopy exited with %d: %s' % (rc, err[-300:]), 'input': inp})
                 continue
@@ -467,12 +470,25 @@ def replay(payload):
                 else:
                     open(p, 'w').write(REV_MIB % {'name': name, 'ident': 'copyNode%d' % i, 'n': 500 + i, 'tag': tag, 'rev': '%012dZ' % rev})
                 files.append(p)
-            rc, err = run_cmd([MIBCOPY, '--mib-source=file://' + BASE] + [files[k] for k in inp['order']] + [dst])
+            pre = {n: tuple(v) for n, v in (inp.get('pre') or {}).items()}
+            for n, (r, t) in pre.items():
+                open(os.path.join(dst, n), 'w').write(REV_MIB % {'name': n, 'ident': 'copyPre', 'n': 499, 'tag': t, 'rev': '%012dZ' % r})
+            rc, err = run_cmd([MIBCOPY] + list(inp.get('flags') or []) + ['--mib-source=file://' + BASE] + [files[k] for k in inp['order']] + [dst])
             got = {f: tag_of(open(os.path.join(dst, f)).read()) for f in os.listdir(dst)}
+            seen = {}
             for fn, name, rev, tag in inp['sources']:
-                if name is not None and name not in got:
-                    return {'fails': True, 'what': '%s not in the destination' % name}
-            return {'fails': rc != 0}
+                if name is not None:
+                    seen.setdefault(name, []).append((rev or 0, tag))
+            for n, (r, t) in pre.items():
+                seen.setdefault(n, []).append((r, t))
+            for n, cands in seen.items():
+                best = max(r for r, t in cands)
+                ok_tags = set(t for r, t in cands if r == best)
+                if n in pre and pre[n][0] >= best:
+                    ok_tags = {pre[n][1]}
+                if got.get(n) not in ok_tags:
+                    return {'fails': True, 'what': 'destination holds %r for %s; the latest revision is in %s' % (got.get(n), n, sorted(ok_tags))}
+            return {'fails': rc != 0 or bool(set(got) - set(seen))}
         if key == 'build-index-unsupported-format':
             src, dst, empty = (os.path.join(root, x) for x in ('src', 'dst', 'empty'))
             for x in (src, dst, empty):
